@@ -61,7 +61,10 @@ def _len_ok(kind, Lp, lin, d, fn):
     if kind == "nbytes":
         return Lp == Poly.atom("nbytes"), "nbytes"
     if kind == "len(source)":
-        return Lp == Poly.atom("len(source)"), "len(source)"
+        # any spelling of "the number of bytes of the source" (which spelling is right for which kind of source is
+        # decided by evaluation: rule B1e)
+        forms = ("len(source)", "source.nbytes", "memoryview(source).nbytes", "getattr(source, 'nbytes', len(source))", "len(memoryview(source).cast('B'))", "memoryview(source).cast('B').nbytes")
+        return any(Lp == Poly.atom(f_) for f_ in forms), "byte length of the source"
     if kind == "value-nbytes":
         ats = Lp.atoms()
         if len(Lp.t) == 1 and len(ats) == 1 and list(Lp.t.values()) == [1]:
